@@ -738,6 +738,18 @@ func genCall(r *common.Rng, f *fspec, maxLen int) *call {
 		if r.Chance(50) {
 			c.key = common.Pick(r, keyNames)
 		}
+		if (c.key == "KAbs" || c.key == "KSq") && n >= 2 && r.Chance(45) {
+			// several DIFFERENT elements with the same key: only the element returned tells which one was selected
+			i, j := r.Intn(n), r.Intn(n-1)
+			if j >= i {
+				j++
+			}
+			c.s1[i], c.s1[j] = -1, 1
+			c.item, c.predC = 1, 1
+			if r.Chance(60) {
+				c.predT = "TEql"
+			}
+		}
 		if f.hasTest {
 			genTest(55, 8)
 		}
@@ -858,6 +870,12 @@ func genCall(r *common.Rng, f *fspec, maxLen int) *call {
 		c.start, c.end = genBounds(r, n, 55, 50, 6)
 	case "plain":
 	case "sort":
+		if r.Chance(30) { // Go's library sorts switch algorithm above 12 (sort.Slice) and 20 (sort.SliceStable) elements
+			c.s1 = make([]int, 13+r.Intn(20))
+			for i := range c.s1 {
+				c.s1[i] = common.Pick(r, alphabet)
+			}
+		}
 		c.tkind, c.test = testTest, common.Pick(r, []string{"TLt", "TGt", "TLt", "TGt", "TLe", "TGe"})
 		if r.Chance(60) {
 			c.key = common.Pick(r, keyNames)
@@ -944,9 +962,9 @@ func twoSeq(c *call) bool {
 }
 
 func Run(ctx *common.Ctx) {
-	ncalls, maxLen := 4200, 8
+	ncalls, maxLen := 20000, 8
 	if ctx.Thorough() {
-		ncalls = 40000
+		ncalls = 150000
 	}
 	total := 0
 	for _, f := range fspecs {
@@ -1031,7 +1049,7 @@ func Run(ctx *common.Ctx) {
 		}
 	}
 	ctx.Meta.DistinctNontrivial = len(distinct)
-	ctx.Meta.Rule = "random calls of the sequence functions: elements from a 4-symbol alphabet {-1,0,1,2} (occasionally one two-byte character), length 0..8 biased to 0 and 1, item/predicate constant mostly drawn from the sequence, :start/:end in range (all boundary values), :key from {- abs 1+ square}, :test/:test-not from {eql = < > <= >= /=}, :count -1..len+1 or nil, :from-end t/nil; every call is run on the same elements as a list, as nil when empty, as a vector and as a string (characters 100+e; tests become char tests, keys decode the character); distinct = distinct calls with at least one keyword"
+	ctx.Meta.Rule = "random calls of 52 sequence functions (find position count remove delete substitute nsubstitute and -if / -if-not, remove-/delete-duplicates, member assoc rassoc and -if, search mismatch, subseq replace fill reverse nreverse, sort stable-sort merge, union intersection set-difference subsetp, every some notany notevery, map mapcar reduce concatenate): elements from the 4-symbol alphabet {-1,0,1,2} (6%: one two-byte character; for abs/square keys often both -1 and 1), length 0..8 biased to 0 and 1 (sort: 30% of length 13..32), item / predicate constant mostly drawn from the sequence, :start/:end (:start2/:end2) in range with every boundary value, :end nil, :key from {- abs 1+ square}, :test/:test-not from {eql = < > <= >= /=}, :count -1..len+1 or nil, :from-end t/nil, :initial-value; search patterns cut from the searched sequence, mismatch partners by point changes and cuts, merge arguments pre-sorted; every call is evaluated as Lisp text on the same elements as a list, as nil where a sequence is empty, as a vector and as a string (characters 100+e; tests become char tests, keys decode the character); non-destructive calls are repeated with the sequences in variables which must be unchanged afterwards; distinct = distinct calls with at least one keyword"
 	header := "From C14 Require Import Base Model Spec Corr.\nOpen Scope Z_scope.\n"
 	footer := "Definition res := Eval vm_compute in check_all cases.\nPrint res.\nDefinition gcount := Eval vm_compute in guard_count cases.\nPrint gcount.\nDefinition specmiss := Eval vm_compute in spec_misses cases.\nPrint specmiss.\n"
 	ctx.WriteShards("cases", header, "case", footer, terms, descs, 16)
